@@ -24,6 +24,14 @@ def patches_for(pid):
             p = os.path.join(VERIF, 'selftest', 'mutants', m['id'] + '.patch')
             if os.path.exists(p):
                 out.append({'id': m['id'], 'patch': p, 'expect': m.get('expect'), 'origin': 'selftest'})
+    # behaviour-preserving refactorings written by independent sub-agents: selftest/refactors/R-<pid>[+<pid>..]-<name>.patch
+    rd = os.path.join(VERIF, 'selftest', 'refactors')
+    if os.path.isdir(rd):
+        for fn in sorted(os.listdir(rd)):
+            if fn.endswith('.patch') and fn.startswith('R-'):
+                pids = fn[2:].split('-')[0].split('+')
+                if pid in pids:
+                    out.append({'id': 'refactors/' + fn[:-6], 'patch': os.path.join(rd, fn), 'expect': None, 'origin': 'sub-agent refactoring'})
     sd = os.path.join(VERIF, 'seeded')
     if os.path.isdir(sd):
         for d in sorted(os.listdir(sd)):
